@@ -240,6 +240,11 @@ def plan_cases (seed, tier = 'quick', quick = 1, thorough = 4, skip = (), only =
     return out
 # end def plan_cases
 
+def rng_of (c, stream):
+    """ generator of a corpus case: differs per file, variant and check """
+    return np.random.default_rng ([c ['seed'], stream, c ['i'], sum (c ['corpus'].encode ()), 77])
+# end def rng_of
+
 def make (c, stream, freq = True, sources = True):
     """ spec of a corpus case """
     rng = np.random.default_rng ([c ['seed'], stream, c ['i'], sum (c ['corpus'].encode ())])
